@@ -882,9 +882,21 @@ impl<const N: usize> SubscriptionsInner<N> {
     ) where
         B: Buffers<IMBuffer> + 'a,
     {
-        // Always clear the reporting slot; it was populated in `report()`.
-        self.reporting = None;
-        let cancelled = self.reporting_cancelled.take();
+        // Clear the reporting slot populated in `report()` - but only when the
+        // completing context is the one that occupies it. A priming context
+        // (from `add()`) never occupies the slot and must not consume the
+        // slot or a cancellation aimed at the subscription being reported on.
+        let is_reporting = self
+            .reporting
+            .as_ref()
+            .map(|reporting| reporting.ids.id == sub.ids.id)
+            .unwrap_or(false);
+        let cancelled = if is_reporting {
+            self.reporting = None;
+            self.reporting_cancelled.take()
+        } else {
+            None
+        };
 
         if let Some(reason) = cancelled {
             info!(
